@@ -1,6 +1,6 @@
 (* Extraction of the executable model. Only ExtrOcamlBasic and ExtrOcamlString directives are used. *)
 From Coq Require Import Extraction ExtrOcamlBasic ExtrOcamlString.
-From LN Require Import Sem.Request Sem.Serde Model.Chars Model.Case Model.Names Model.Fs Model.Adapters Model.OpenApi Model.Hir Model.Extractor Model.Shake Model.Emit Model.Crate Model.Macro Spec.Ident Spec.Wf.
+From LN Require Import Sem.Request Sem.Serde Model.Chars Model.Case Model.Names Model.Fs Model.Adapters Model.OpenApi Model.Hir Model.Extractor Model.Shake Model.Emit Model.Crate Model.Macro Spec.Ident Spec.Wf Spec.WfSpec.
 Extraction Language OCaml.
 Set Extraction AccessOpaque.
 Extraction "model.ml"
@@ -11,4 +11,4 @@ Extraction "model.ml"
   Fs.gen Fs.crash Fs.crash_cleanup Fs.wwc Fs.in_scope
   Adapters.ser_str Adapters.de_str Adapters.ser_nz Adapters.de_nz Adapters.ser_date Adapters.de_date Adapters.valid_date
   Extractor.extract_without_treeshake Shake.extract_spec Shake.treeshake Shake.ListSet Hir.crowded_args Hir.server_strategy_of Hir.env_var_for_strategy Hir.safe_variant_names
-  Emit.render Emit.model_mod_file Emit.model_file Emit.request_file Emit.request_mod_file Emit.lib_file Emit.serde_file Emit.example_file Emit.calculate_extras Emit.needs_serde Crate.emit_crate Crate.generate Crate.cli_config Wf.hir_ok Macro.body_macro Macro.function_macro Macro.rfunction_macro Macro.render_rfn Macro.text_of Request.run_operation Request.auth_plan_of Serde.serde_struct.
+  Emit.render Emit.model_mod_file Emit.model_file Emit.request_file Emit.request_mod_file Emit.lib_file Emit.serde_file Emit.example_file Emit.calculate_extras Emit.needs_serde Crate.emit_crate Crate.generate Crate.cli_config Wf.hir_ok WfSpec.spec_ok Macro.body_macro Macro.function_macro Macro.rfunction_macro Macro.render_rfn Macro.text_of Request.run_operation Request.auth_plan_of Serde.serde_struct.
